@@ -170,7 +170,7 @@ pub fn recase_opt(ident: &str, style_str: &Option<String>) -> String {
 /// R-snake: method-name form. snake_case, and additionally every digit run that follows a
 /// non-digit is split off with `_` (`Hello2You` -> `hello_2_you`).
 pub fn snakify(ident: &str) -> String {
-    let base = recase(ident, Style::Snake);
+    let base = recase(unraw(ident), Style::Snake);
     let cs: Vec<char> = base.chars().collect();
     let mut o = String::new();
     for (i, c) in cs.iter().enumerate() {
@@ -193,7 +193,7 @@ pub fn spellings(e: &EnumSpec, v: &VariantSpec) -> Vec<String> {
         s.push(t.clone());
     }
     if s.is_empty() {
-        s.push(recase_opt(&v.ident, &e.serialize_all));
+        s.push(recase_opt(unraw(&v.ident), &e.serialize_all));
     }
     s
 }
@@ -212,7 +212,7 @@ pub fn name_noprefix(e: &EnumSpec, v: &VariantSpec) -> Option<String> {
         }
         return Some(longest[0].clone());
     }
-    Some(recase_opt(&v.ident, &e.serialize_all))
+    Some(recase_opt(unraw(&v.ident), &e.serialize_all))
 }
 
 pub fn name(e: &EnumSpec, v: &VariantSpec) -> Option<String> {
